@@ -406,6 +406,17 @@ def run_unit(unit):
         pats = [p for p in C.SUBJECTS[name].patterns if p in ("init", "pat1")] or ["init"]
         for pname in pats:
             res["violations"].extend(run_transform_case(name, cfg, pname, seed, tier, res))
+        if C.SUBJECTS[name]._post is not None:
+            # the catalogue gives such subjects non-trivial buffers (running statistics); here also exactly as constructed
+            C.AS_BUILT[0] = True
+            try:
+                vs = run_transform_case(name, cfg, "init", seed, tier, res)
+            finally:
+                C.AS_BUILT[0] = False
+            for v in vs:
+                v["key"] = v["key"].replace("|", "|as-built,", 1)
+                v["case"]["as_built"] = True
+            res["violations"].extend(vs)
     else:
         for pname in DC.DSUBJECTS[name].patterns:
             res["violations"].extend(run_dist_case(name, cfg, pname, seed, tier, res))
@@ -414,6 +425,16 @@ def run_unit(unit):
 
 def replay(case):
     only = {"train": case["train"], "kind": case["kind_arg"], "kind_arg": case["kind_arg"], "hist": case["hist"]}
+    if case["kind"] == "transform" and case.get("as_built"):
+        C.AS_BUILT[0] = True
+        try:
+            vs = run_transform_case(case["subject"], case["cfg"], case["pattern"], case["seed"], "thorough", None, only=only)
+        finally:
+            C.AS_BUILT[0] = False
+        for v in vs:
+            v["key"] = v["key"].replace("|", "|as-built,", 1)
+            v["case"]["as_built"] = True
+        return vs
     if case["kind"] == "transform":
         return run_transform_case(case["subject"], case["cfg"], case["pattern"], case["seed"], "thorough", None, only=only)
     return run_dist_case(case["subject"], case["cfg"], case["pattern"], case["seed"], "thorough", None, only=only)
